@@ -26,11 +26,12 @@ ZED == 90                                   \* a letter no keyword of the lexico
 Digits1(i) == <<48 + i>>
 Digits2(i) == <<48 + i, 48 + ((i + 5) % 10)>>
 DigitsZ(i) == <<48, 48 + i>>                \* leading zero
+DigitsBig == <<51, 48, 48, 48, 48, 48, 48, 48, 48, 48>>      \* 3000000000: more than a 32-bit slot holds
 
 (* the accepted upper-case spellings of keyword k when it is the i-th keyword of its pattern *)
 Forms(k, i) == LET S == UpSeq(ShortForm(k.name))
                    L == LongForm(k.name)
-               IN {S, L} \cup (IF k.num THEN {S \o Digits1(i), L \o Digits2(i), S \o DigitsZ(i)} ELSE {})
+               IN {S, L} \cup (IF k.num THEN {S \o Digits1(i), L \o Digits2(i), S \o DigitsZ(i), S \o DigitsBig} ELSE {})
 
 (* near misses of keyword k: one letter less / more than a form, digits where they do not belong, other words, nothing *)
 NearMiss(k, i, others) ==
